@@ -224,11 +224,31 @@ def save_load(spec, ctx, obj, audio, path):
         kw["audio_dir"] = str(audio)
     elif spec["audio"] in ("path", "relpath"):
         kw["audio_dir"] = audio
-    ctx.call(spec, f"io.save({spec['ctype']})", io.save, obj, path, **kw)
-    lkw = dict(kw)
-    if spec.get("typed_load"):
-        lkw["type"] = spec["ctype"]
-    return ctx.call(spec, f"io.load({spec['ctype']})", io.load, path, **lkw)
+    import time
+
+    # the file is written in one local time zone and read in another (a laptop in the field, a server at home): naive timestamps
+    # are wall-clock values and aware ones are instants - neither changes with the zone of the reading process
+    zones = {1: ("Pacific/Auckland", "America/Lima"), 2: ("UTC", "Asia/Kolkata")}.get(int(str(spec["top"]["uuid"]).replace("-", "")[-2:], 16) % 5)
+    old_tz = os.environ.get("TZ")
+    try:
+        if zones:
+            os.environ["TZ"] = zones[0]
+            time.tzset()
+        ctx.call(spec, f"io.save({spec['ctype']})", io.save, obj, path, **kw)
+        lkw = dict(kw)
+        if spec.get("typed_load"):
+            lkw["type"] = spec["ctype"]
+        if zones:
+            os.environ["TZ"] = zones[1]
+            time.tzset()
+        return ctx.call(spec, f"io.load({spec['ctype']})", io.load, path, **lkw)
+    finally:
+        if zones:
+            if old_tz is None:
+                os.environ.pop("TZ", None)
+            else:
+                os.environ["TZ"] = old_tz
+            time.tzset()
 
 
 def check(spec, ctx):
